@@ -7,6 +7,7 @@ _FEW = '{"a", "%2e%2e", "a;p"}'
 _ALLB = '{"none", "root", "base", "nested"}'
 _Q1 = '"x=1&y=%2F..%2F"'
 _Q2 = '"p=../../etc&q=%2e%2e//h?x&&=;+%20"'
+_Q3 = '"a=1#frag&b=2"'   # Go's server accepts a raw '#' in the request target's query: it is part of the query
 _BOTH = '{"olla", "sherpa"}'
 _PFX = '{"/olla/proxy/", "/olla/openai/"}'
 
@@ -29,7 +30,7 @@ _G_SEQ3 = _g(MaxLen=3, Engines='{"olla"}')
 _G_DOTS3 = _g(Alphabet=_DOTS, MaxLen=3, BaseIds='{"base", "nested"}', Preserves="{TRUE}", Engines='{"olla"}', Prefixes=_PFX)
 # target form x route prefix x query
 _G_FORMS = _g(Alphabet=_FEW, MaxLen=1, Prefixes=_PFX, Forms='{"origin", "absolute", "netpath"}',
-              Queries='{"", %s}' % _Q1)
+              Queries='{"", %s, %s}' % (_Q1, _Q3))
 
 # request paths whose first segment textually extends (or equals) the endpoint's base path name
 _G_NAMESAKE = _g(Alphabet='{"a", "base", "basex", "base-admin", "nested"}', MaxLen=2, BaseIds='{"base", "nested"}',
